@@ -1,7 +1,8 @@
 """Site inventories of the whole bindgen/ tree  ->  Generated/Sites.lean
 
 (a) process-wide state: `static`, `thread_local!`, `OnceLock`/`OnceCell`/`LazyLock`, `lazy_static`,
-    environment / current-dir / temp-dir reads;
+    environment / current-dir / temp-dir reads, and file-system writes (files at fixed paths are
+    state shared by every generation in the same directory);
 (b) every ITERATION over a hash container (crate::HashMap/HashSet, StdHashMap, std HashMap):
     found type-directedly: names (fields, locals, parameters, functions) whose declared type or
     initialiser mentions a hash container are tracked, then every order-observing use of such a
@@ -316,6 +317,9 @@ STATE_PATTERNS = [
     ("thread_local", r"\bthread_local!"),
     ("lazy", r"\blazy_static!|\bLazyLock\b|\bLazyCell\b|\bonce_cell::"),
     ("env", r"\benv::(?:var|var_os|vars|vars_os|args|args_os|current_dir|current_exe|temp_dir|set_var|remove_var|set_current_dir)\b"),
+    # file-system writes: a file at a path that is not unique to the generation is process-
+    # (and directory-) wide mutable state
+    ("fswrite", r"\bFile::create\b|\bOpenOptions::new\b|\bfs::write\s*\(|\bfs::remove_file\b|\bfs::create_dir(?:_all)?\b|\bfs::remove_dir(?:_all)?\b|\bfs::rename\b|\bfs::copy\b|\.\s*save\s*\("),
 ]
 
 
